@@ -353,7 +353,7 @@ impl Engine for VcConfig {
         Box::new(v.into_iter())
     }
     fn bound(&self, _tier: Tier) -> String {
-        "C16: every assignment of {unset,v1,v2} to the 4 layers for each of 9 keys (7 scalar keys + 2 environment variables) and jointly for every pair of keys (3^8 x 36); DocumentConfig: all 3^10 assignments of (shell,total_timeout,prepend,append,defaults.output_stream) to the layers doc and cli over the format default; parse level: inline x front-matter defaults for every key pair on Markdown and Cram base; command line: all 27 assignments of {unset,v1,v2} to (flag, inline, document defaults) for output_stream and keep_crlf on a Markdown document and all flag values on a Cram document, all 9 assignments of (flag, front-matter) for `shell` and all 16 for `total_timeout` over {unset, 1 s, 8 s, 0 s = no limit} against a 2.5 s command, through `scrut test -r json`. C17: all 256 key subsets with base values; every value of every key alphabet alone and with each other key; all pairs of 17 environment values; timeout x wait product; document configs over shell/timeout/prepend/append/defaults alphabets; routes: one-liner through the Markdown parser, serde_yaml round trip, front-matter through the parser. Same bound in quick and thorough (the space is small enough to be run completely every time).".into()
+        "C16: every assignment of {unset,v1,v2} to the 4 layers for each of 9 keys (7 scalar keys + 2 environment variables) and jointly for every pair of keys (3^8 x 36); DocumentConfig: all 3^10 assignments of (shell,total_timeout,prepend,append,defaults.output_stream) to the layers doc and cli over the format default; parse level: inline x front-matter defaults for every key pair on Markdown and Cram base; command line: all 27 assignments of {unset,v1,v2} to (flag, inline, document defaults) for output_stream and keep_crlf on a Markdown document and all flag values on a Cram document, all 9 assignments of (flag, front-matter) for `shell` and all 16 for `total_timeout` over {unset, 1 s, 8 s, 0 s = no limit} against a 2.5 s command, through `scrut test -r json`. C17: all 256 key subsets with base values; every value of every key alphabet alone and with each other key; all pairs of 17 environment values; timeout x wait product; document configs over shell/timeout/prepend/append/defaults alphabets; routes: one-liner through the Markdown parser, a document written by the real create generator read back, serde_yaml round trip, front-matter through the parser. Same bound in quick and thorough (the space is small enough to be run completely every time).".into()
     }
     fn rule(&self, p: &str) -> String {
         if p == "C16" {
@@ -688,6 +688,32 @@ impl Engine for VcConfig {
                             }
                         }
                         Err(p) => res.findings.push(Finding::new("C17", "no-crash", "one-liner", format!("panic {p}"))),
+                    }
+                }
+                // route 1b: the way `scrut create` writes it - the real generator decides which keys are written at all
+                if !cfg.is_empty() {
+                    use scrut::generators::generator::TestCaseGenerator;
+                    let tc = scrut::testcase::TestCase { title: "T".into(), shell_expression: "true".into(), expectations: vec![], exit_code: None, line_number: 1, config: cfg.clone() };
+                    let output = scrut::output::Output { stdout: vec![].into(), stderr: vec![].into(), exit_code: scrut::output::ExitStatus::Code(0) };
+                    let o = scrut::outcome::Outcome { location: None, output: output.clone(), testcase: tc.clone(), format: scrut::parsers::parser::ParserType::Markdown, escaping: scrut::escaping::Escaper::Unicode, result: tc.validate(&output) };
+                    match guard(|| scrut::generators::markdown::MarkdownTestCaseGenerator::default().generate_testcases(&[&o]).map_err(|e| format!("{e:#}"))) {
+                        Ok(Ok(text)) => {
+                            let want = cfg.with_defaults_from(&TestCaseConfig::default_markdown());
+                            match parse_md(&text, false) {
+                                Ok(Ok((_, tests))) if tests.len() == 1 && tests[0].config == want => routes.push(true),
+                                Ok(Ok((_, tests))) => {
+                                    routes.push(false);
+                                    res.findings.push(Finding::new("C17", "created-document-round-trip", format!("{text:?} reads back as {want}"), tests.first().map(|t| format!("{}", t.config)).unwrap_or_else(|| "no test case".into())).tag(&oneliner_tag(&cfg)));
+                                }
+                                Ok(Err(e)) => {
+                                    routes.push(false);
+                                    res.findings.push(Finding::new("C17", "created-document-round-trip", format!("{text:?} parses back"), format!("Err({e})")).tag(&oneliner_tag(&cfg)));
+                                }
+                                Err(p) => res.findings.push(Finding::new("C17", "no-crash", "parse", format!("panic {p}"))),
+                            }
+                        }
+                        Ok(Err(e)) => res.findings.push(Finding::new("C17", "created-document-round-trip", "the generator writes a document".to_string(), format!("Err({e})"))),
+                        Err(p) => res.findings.push(Finding::new("C17", "no-crash", "generator", format!("panic {p}"))),
                     }
                 }
                 // route 2: serde_yaml
